@@ -16,7 +16,7 @@ RULE = ("(a) in-memory reader histories (per-record Site values: Standard counts
         "t_j = 0, m_j = 0 - compared with the exact model within 1e-9; (b) random call sets through `sfs create "
         "--project-shape/-p --precision p`: every printed value within 0.5*10^-p + 1e-9*records of the model, exit "
         "status, summary; cohorts of 100-300 samples; -p i vs --project-shape 2i+1 must print identical bytes; builder "
-        "errors (dimension mismatch, too large, zero). non-trivial = at least one Projected site; cohorts of 520-640 samples include monomorphic, singleton, nearly fixed and fixed sites (boundary terms of the log-space kernel); weights below 2^-52 (28-30 samples projected to half, three populations) compared relatively (1e-9); 30-45 populations projected down to nine entries (the unprojected spectrum could not be allocated)")
+        "errors (dimension mismatch, too large, zero). non-trivial = at least one Projected site; cohorts of 520-640 samples include monomorphic, singleton, nearly fixed and fixed sites (boundary terms of the log-space kernel); weights below 2^-52 (28-30 samples projected to half, three populations) compared relatively (1e-9); 30-45 populations projected down to nine entries (the unprojected spectrum could not be allocated); cohorts of 515-530 in the band where C(t, m) has just overflowed (m0-1 .. m0+40)")
 
 
 def scale_of(case):
@@ -178,6 +178,15 @@ def check(rep, tier, seed):
             m = rng.choice([n, n + 1, 2 * n - 40, n // 2 * 2 + 1])
         big_jobs.append((["create", "--precision", "9", "--project-shape", str(m + 1)], render_vcf(cols, recs)))
         big_meta.append((n, m, recs))
+    # the band where the DENOMINATOR C(t, m) has just left the range of a double while the numerators of the likely cells are
+    # still finite (t about 1030-1060, m from the first overflowing target on): every weight still comes out right
+    for n in ((516, 524) if tier == "quick" else (515, 516, 518, 520, 524, 530)):
+        cols = ["s%d" % i for i in range(n)]
+        recs = [[rng.choice(["0/0", "0/1", "1/1", "0|1"]) for _ in cols] for _ in range(2)] + [["0/1"] + ["0/0"] * (n - 1), ["0/0"] * n, ["1/1"] * (n // 3) + ["0/0"] * (n - n // 3)]
+        m0 = next(mm for mm in range(1, n) if comb(2 * n, mm) > 2**1024)
+        for m in ((m0, m0 + 3) if tier == "quick" else (m0 - 1, m0, m0 + 1, m0 + 3, m0 + 12, m0 + 40)):
+            big_jobs.append((["create", "--precision", "9", "--project-shape", str(m + 1)], render_vcf(cols, recs)))
+            big_meta.append((n, m, recs))
     for job, (rc, so, se), (n, m, recs) in zip(big_jobs, run_cli_many(big_jobs, timeout=600), big_meta):
         rep.count("create-project-large-cohort", "%d samples, %d records -> %d chromosomes" % (n, len(recs), m), True)
         expect = [Fraction(0)] * (m + 1)
@@ -202,6 +211,31 @@ def check(rep, tier, seed):
                      argv=["sfs"] + job[0], stdin=job[1].decode()[:200000], observed={"rc": rc, "stdout": so.decode(errors="replace")[:300]},
                      expected="sum over covered records of Hypergeom(k; t, a, %d), e.g. first entries %s" % (m, [float(x) for x in expect[:3]]),
                      detail="create --project on a cohort of hundreds of samples differs from the hypergeometric formula (exact integer oracle) by more than 4e-8")
+    # sample names are opaque: a call set whose header names carry leading / trailing / inner blanks, selected by exactly those
+    # names, gives the bytes of the same call set with plain names (inline list and samples file)
+    import os as _os
+    from common import WORK as _WORK
+    from callsets import samples_file_bytes as _sfb
+    nj = []
+    for k in range(4 if tier == "quick" else 30):
+        cols, recs = random_callset(rng, nsamples=5, nrecords=rng.randrange(3, 10), p_skip=0.2)
+        odd = [" " + cols[0], cols[1] + " ", cols[2], cols[3][:1] + " " + cols[3][1:], "  " + cols[4] + "  "]
+        sm_p = [(cols[0], "A"), (cols[1], "A"), (cols[3], "B"), (cols[4], "B")]
+        sm_o = [(odd[0], "A"), (odd[1], "A"), (odd[3], "B"), (odd[4], "B")]
+        pr_ = ("i", [rng.randrange(0, 3), rng.randrange(0, 3)])
+        fp, fo = _os.path.join(_WORK, "c02_names_p_%d.txt" % k), _os.path.join(_WORK, "c02_names_o_%d.txt" % k)
+        open(fp, "wb").write(_sfb(sm_p)); open(fo, "wb").write(_sfb(sm_o))
+        nj += [(["create"] + cli_samples_arg(sm_p) + cli_project_arg(pr_), render_vcf(cols, recs)), (["create"] + cli_samples_arg(sm_o) + cli_project_arg(pr_), render_vcf(odd, recs)),
+               (["create", "-S", fp] + cli_project_arg(pr_), render_vcf(cols, recs)), (["create", "-S", fo] + cli_project_arg(pr_), render_vcf(odd, recs))]
+    nr = run_cli_many(nj)
+    for i in range(0, len(nr), 4):
+        rep.count("blank-padded-names", " ".join(nj[i + 1][0])[:200], True, n=3)
+        for j_ in (1, 2, 3):
+            if nr[i][0] != 0 or (nr[i + j_][0], nr[i + j_][1]) != (nr[i][0], nr[i][1]):
+                rep.fail(kind="property-oracle", cls="create-project:sample-names", case=" ".join(nj[i + j_][0])[:300], argv=["sfs"] + nj[i + j_][0], stdin=nj[i + j_][1].decode(),
+                         observed={"rc": nr[i + j_][0], "stdout": nr[i + j_][1].decode(errors="replace")[:300], "stderr": nr[i + j_][2].decode(errors="replace")[-200:]},
+                         expected=nr[i][1].decode(errors="replace")[:300], detail="samples named with leading / trailing blanks (selected by exactly those names) give another result than the same call set with plain names")
+                break
     # -p i  ==  --project-shape 2i+1 : identical bytes
     jj = []
     for k in range(40 if tier == "quick" else 300):
